@@ -559,6 +559,228 @@ class Repo:
                 self.modules[rel].repo = self
         self.by_dotted = {m.dotted: m for m in self.modules.values()}
         self._cg = None
+        self._flat = {}
+        if not os.environ.get('VERIF_NOFLAT'):
+            try:
+                self._flatten_all()
+            except RecursionError:
+                pass
+
+    # ---- helpers extracted after the pinned tree, put back where they came from
+    def _flatten_all(self):
+        """A statement `x = helper(a, b)` / `helper(a)` / `return helper(a)` whose callee (same module) did not exist on the pinned tree, has a straight body
+        ending in its only `return`, and is passed plain arguments, is replaced IN THE ANALYSED COPY of the caller by the callee's body (parameters substituted,
+        colliding locals renamed, the return turned into the assignment). The structural rules and the engines then see the function as it was before the
+        helper was extracted. Functions of the pinned tree are never touched (nothing happens on the unchanged tree); the helpers stay resolvable."""
+        from .proto import known_functions
+        known = known_functions()
+        for m in list(self.modules.values()):
+            for q_, fi in list(m.funcs.items()):
+                if any(isinstance(n, ast.Call) for n in ast.walk(fi.node)):
+                    nf_ = self._flat_of(fi, known, ())
+                    if nf_ is not fi:
+                        m.funcs[q_] = nf_
+                        if fi.cls is not None:
+                            for k_, v_ in list(fi.cls.methods.items()):
+                                if v_ is fi:
+                                    fi.cls.methods[k_] = nf_
+                            for pn, d_ in fi.cls.props.items():
+                                for kk in list(d_):
+                                    if d_[kk] is fi:
+                                        d_[kk] = nf_
+
+    def _flat_of(self, fi, known, stack):
+        key = id(fi.node)
+        if key in self._flat:
+            return self._flat[key]
+        if len(stack) > 3 or any(x is fi for x in stack):
+            return fi
+        import copy as _copy
+        caller_names = {n.id for n in ast.walk(fi.node) if isinstance(n, ast.Name)} | set(fi.params) | set(fi.kwonly)
+        changed = [False]
+        counter = [0]
+
+        def simple(e):
+            return isinstance(e, (ast.Name, ast.Constant)) or (isinstance(e, ast.Attribute) and simple(e.value))
+
+        def inline_site(stmt):
+            """-> list of statements replacing stmt, or None"""
+            if isinstance(stmt, ast.Assign) and isinstance(stmt.value, ast.Call) and len(stmt.targets) == 1:
+                call, form = stmt.value, 'assign'
+            elif isinstance(stmt, ast.Expr) and isinstance(stmt.value, ast.Call):
+                call, form = stmt.value, 'expr'
+            elif isinstance(stmt, ast.Return) and isinstance(stmt.value, ast.Call):
+                call, form = stmt.value, 'return'
+            else:
+                return None
+            if any(isinstance(a, ast.Starred) for a in call.args) or any(k.arg is None for k in call.keywords):
+                return None
+            try:
+                tg = self.resolve_call(fi, call, virtual=False)
+            except Exception:
+                return None
+            if len(tg) != 1:
+                return None
+            g = tg[0]
+            if g.where in known or g is fi or g.module is not fi.module or g.vararg or g.kwarg or g.outer is not None:
+                return None
+            if any(d not in ('staticmethod',) for d in g.decorators):
+                return None
+            g = self._flat_of(g, known, stack + (fi,))
+            body = g.body()
+            if not body:
+                return None
+            for b in body:
+                for n in ast.walk(b):
+                    if isinstance(n, (ast.FunctionDef, ast.AsyncFunctionDef, ast.Lambda, ast.Global, ast.Nonlocal, ast.Yield, ast.YieldFrom, ast.ClassDef)):
+                        return None
+            rets = [n for b in body for n in ast.walk(b) if isinstance(n, ast.Return)]
+            if len(rets) > 1 or (rets and rets[0] is not body[-1]):
+                return None
+            if len(list(ast.walk(g.node))) > 400:
+                return None
+            params = list(g.params)
+            binds = []
+            if g.is_method:
+                if not isinstance(call.func, ast.Attribute) or not params:
+                    return None
+                binds.append((params[0], call.func.value))
+                params = params[1:]
+            if len(call.args) > len(params):
+                return None
+            for p_, a_ in zip(params, call.args):
+                binds.append((p_, a_))
+            bound = {p_ for p_, _ in binds}
+            for k in call.keywords:
+                if k.arg in bound or k.arg not in params + g.kwonly:
+                    return None
+                binds.append((k.arg, k.value))
+                bound.add(k.arg)
+            for p_, d_ in g.defaults().items():
+                if p_ not in bound:
+                    binds.append((p_, d_))
+                    bound.add(p_)
+            if any(p_ not in bound for p_ in params + g.kwonly):
+                return None
+            stored = {n.id for b in body for n in ast.walk(b) if isinstance(n, ast.Name) and isinstance(n.ctx, (ast.Store, ast.Del))}
+            counter[0] += 1
+            sub, pre = {}, []
+            in_loop = any(isinstance(a, (ast.For, ast.While)) for a in fi.ancestors(stmt)) if stmt in fi.parents() else True
+            end = getattr(stmt, 'end_lineno', stmt.lineno)
+            for p_, a_ in binds:
+                if simple(a_) and p_ not in stored:
+                    sub[p_] = a_
+                elif isinstance(a_, ast.Name) and a_.id == p_ and not in_loop and \
+                        not any(isinstance(n, ast.Name) and n.id == p_ and isinstance(n.ctx, ast.Load) and n.lineno > end for n in ast.walk(fi.node)):
+                    # `x = clip(x)` inside the helper on a caller variable of the same name that the caller never reads again: the helper's variable IS the caller's
+                    continue
+                else:
+                    fresh = p_ if (p_ not in caller_names) else '%s_h%d' % (p_, counter[0])
+                    caller_names.add(fresh)
+                    pre.append(ast.copy_location(ast.Assign(targets=[ast.Name(id=fresh, ctx=ast.Store())], value=_copy.deepcopy(a_)), stmt))
+                    if fresh != p_:
+                        sub[p_] = ast.Name(id=fresh, ctx=ast.Load())
+            ren = {}
+            # a helper local that is returned INTO a caller variable is that variable: `def h(): b = ..; return b` called as `b = h()` (also positionally for tuples)
+            drop_final = False
+            if form == 'assign' and rets and rets[0].value is not None:
+                rv, tv = rets[0].value, stmt.targets[0]
+                pairs = None
+                if isinstance(rv, ast.Name) and isinstance(tv, ast.Name):
+                    pairs = [(rv.id, tv.id)]
+                elif isinstance(rv, ast.Tuple) and isinstance(tv, (ast.Tuple, ast.List)) and len(rv.elts) == len(tv.elts) and \
+                        all(isinstance(x, ast.Name) for x in rv.elts) and all(isinstance(x, ast.Name) for x in tv.elts):
+                    pairs = [(a.id, b.id) for a, b in zip(rv.elts, tv.elts)]
+                if pairs and len({a for a, _ in pairs}) == len(pairs) and len({b for _, b in pairs}) == len(pairs) and \
+                        all(a in stored and a not in sub and a not in {p_ for p_, _ in binds} for a, _ in pairs) and \
+                        not any(b in stored and b not in {a2 for a2, _ in pairs} for _, b in pairs) and \
+                        not any(b in {p_ for p_, _ in binds} for _, b in pairs):
+                    for a, b in pairs:
+                        if a != b:
+                            ren[a] = b
+                    for a, b in pairs:
+                        if b in stored and b != a and b not in ren:
+                            ren[b] = '%s_h%d' % (b, counter[0])
+                    drop_final = True
+            for nm in sorted(stored):
+                if nm in sub or nm in ren:
+                    continue
+                if drop_final and nm in {b for _, b in pairs}:
+                    continue
+                if nm in caller_names and nm not in {p_ for p_, _ in binds}:
+                    ren[nm] = '%s_h%d' % (nm, counter[0])
+                caller_names.add(ren.get(nm, nm))
+
+            class Sub(ast.NodeTransformer):
+                def visit_Name(self, n):
+                    if n.id in sub and isinstance(n.ctx, ast.Load):
+                        return ast.copy_location(_copy.deepcopy(sub[n.id]), n)
+                    if n.id in sub and isinstance(sub[n.id], ast.Name):
+                        return ast.copy_location(ast.Name(id=sub[n.id].id, ctx=n.ctx), n)
+                    if n.id in ren:
+                        return ast.copy_location(ast.Name(id=ren[n.id], ctx=n.ctx), n)
+                    return n
+            out = list(pre)
+            for b in body:
+                nb = Sub().visit(_copy.deepcopy(b))
+                if isinstance(nb, ast.Return):
+                    v = nb.value if nb.value is not None else ast.Constant(value=None)
+                    if form == 'assign' and drop_final:
+                        continue
+                    if form == 'assign':
+                        nb = ast.copy_location(ast.Assign(targets=[_copy.deepcopy(t) for t in stmt.targets], value=v), b)
+                    elif form == 'expr':
+                        nb = ast.copy_location(ast.Expr(value=v), b)
+                    else:
+                        nb = ast.copy_location(ast.Return(value=v), b)
+                out.append(nb)
+            if not rets:
+                if form == 'assign':
+                    out.append(ast.copy_location(ast.Assign(targets=[_copy.deepcopy(t) for t in stmt.targets], value=ast.Constant(value=None)), stmt))
+                elif form == 'return':
+                    out.append(ast.copy_location(ast.Return(value=ast.Constant(value=None)), stmt))
+            changed[0] = True
+            return out
+
+        def block(stmts):
+            res = []
+            for st in stmts:
+                rep = inline_site(st)
+                if rep is not None:
+                    res.extend(rep)
+                    continue
+                for f_ in ('body', 'orelse', 'finalbody'):
+                    sub_ = getattr(st, f_, None)
+                    if isinstance(sub_, list) and sub_ and isinstance(sub_[0], ast.stmt) and not isinstance(st, (ast.FunctionDef, ast.AsyncFunctionDef, ast.ClassDef)):
+                        nb = block(sub_)
+                        if nb is not sub_:
+                            st = _copy.copy(st)
+                            setattr(st, f_, nb)
+                for h_i, h in enumerate(getattr(st, 'handlers', []) or []):
+                    nb = block(h.body)
+                    if nb is not h.body:
+                        st = _copy.copy(st)
+                        st.handlers = list(st.handlers)
+                        h2 = _copy.copy(h)
+                        h2.body = nb
+                        st.handlers[h_i] = h2
+                res.append(st)
+            return res if (len(res) != len(stmts) or any(a is not b for a, b in zip(res, stmts))) else stmts
+        self._flat[key] = fi          # cycle guard while working
+        new_body = block(fi.node.body)
+        if not changed[0]:
+            return fi
+        node = _copy.copy(fi.node)
+        node.body = new_body
+        ast.fix_missing_locations(node)
+        nf_ = FuncInfo(fi.module, fi.cls, node, fi.outer)
+        for attr in ('closure',):
+            if hasattr(fi, attr):
+                setattr(nf_, attr, getattr(fi, attr))
+        nf_.flat_of = fi
+        self._flat[key] = nf_
+        self._flat[id(node)] = nf_
+        return nf_
 
     # ---- anchors
     def module(self, rel):
